@@ -34,6 +34,13 @@ THEOREMS (all proved, all "Closed under the global context"; fs, cwd, base, loc,
                                 exception and the tensor is unchanged.
   C10_history_reads_contained   for every history of SetBase/entry points/Release/Invalidate, every read event is
                                 contained in the base_dir in force at that step.
+  C10_world_history_reads_contained   the same over histories in which the WORLD changes between calls (`World fs cwd`:
+                                the file system was modified and/or the process changed directory): every read is
+                                contained w.r.t. the file system and cwd in force at that call.  Tied by world-changing
+                                history events (file -> symlink out / hard link, directory swapped for a symlinked
+                                look-alike, chdir with a relative base) applied to a private copy of the world, with a
+                                fresh lstat snapshot after each; the oracle's reference (which directory base_dir
+                                denotes, which inodes have which paths / st_nlink) is taken at the time of each call.
   C10_load_sets_base            every tensor of a loaded model (graph AND model-local functions) gets
                                 dirname(p) or "." — never "" — for every spelling p;
   C10_load_base_is_model_dir    and the kernel resolves that string to the directory holding the model file's
@@ -89,6 +96,10 @@ MUTANTS of /repo tried in a scratch worktree (all reported VIOLATION with a conc
   M8 "+ os.sep" dropped in both layers     -> ../dab/f1                                         [correspondence+oracle]
   M9 realpath(path) replaced by join(base_real, normpath(location)) -> symlink out              [correspondence+oracle]
   M10 load() without the loop over model.functions (revert of b3a8816) -> function tensor base_dir ""  [load oracle + load_base row]
+  seeded C10-m3 (check memoised per tensor in a `_checked_path` slot): missed by the first version (histories never
+      changed the file system between reads of one tensor object); caught since the world-changing events were added:
+      e.g. base W/da, loc f1: tofile ; da/f1 replaced by a symlink to W/outside/secret ; tofile -> canary bytes
+      [correspondence + oracle, concrete shrunk replay].
   Also: applying the function-tensor fix made the (then "known") finding stale -> reported as broken, as designed.
   Model corrections made because the tie disagreed (model was wrong, not the code): tofile with 0 bytes to copy
   never raises for a short file (thorough tier); generator kept inside the modelled tree (no /etc/hostname).
@@ -161,6 +172,9 @@ def gen_world(rng) -> list:
     add_file("da", "f1", 8)
     add_dir("da", "sub")
     add_file("da/sub", "f2", 5)
+    add_dir("", "dz")
+    taken.add("dz/f1")
+    plan.append(["symlink", "dz/f1", "../outside/secret"])
     for lp, tgt in (("da/lsib", "../dab/f1"), ("da/lout", "../outside/secret"), ("da/ldirout", "../outside"),
                     ("da/lin", "sub/f2"), ("da/loop1", "loop2"), ("da/loop2", "loop1"), ("lbase", "da"),
                     ("da/sub/labs", W + "/da/f1")):
@@ -236,7 +250,7 @@ def gen_soup(rng, dirs, files) -> str:
 
 
 def materialise(plan: list, root: str) -> None:
-    os.makedirs(root)
+    os.makedirs(root)     # parents too
     for st in plan:
         p = os.path.join(root, st[1])
         try:
@@ -251,6 +265,36 @@ def materialise(plan: list, root: str) -> None:
                 os.link(os.path.join(root, st[2]), p)
         except OSError:
             pass  # e.g. a parent that is a symlink to nowhere; the snapshot reads what really exists
+
+
+def apply_mutation(root: str, mut: list) -> str | None:
+    """World-changing events between two reads of the same tensor.  Returns the new cwd (relative) for chdir."""
+    k = mut[0]
+    if k == "chdir":
+        return mut[1]
+    p = os.path.join(root, mut[1])
+    if k in ("symlink", "hardlink"):
+        if os.path.isdir(p) and not os.path.islink(p):
+            shutil.rmtree(p)
+        elif os.path.lexists(p):
+            os.remove(p)
+        if k == "symlink":
+            os.symlink(mut[2].replace(W, root), p)
+        else:
+            os.link(os.path.join(root, mut[2]), p)
+    elif k == "swapdir":
+        # the directory is moved away and a symlink to a look-alike directory (canary files) takes its place
+        tgt = os.path.join(root, mut[2])
+        os.makedirs(tgt, exist_ok=True)
+        for i, n in enumerate(sorted(os.listdir(p))):
+            if os.path.isfile(os.path.join(p, n)) and not os.path.islink(os.path.join(p, n)):
+                with open(os.path.join(tgt, n), "wb") as f:
+                    f.write(bytes([230 + i % 20]) * 8)
+        os.rename(p, p + "_old")
+        os.symlink(tgt, p)
+    else:
+        raise AssertionError(mut)
+    return None
 
 
 class Snapshot:
@@ -476,7 +520,7 @@ def ensure_audit():
         _AUDIT_INSTALLED[0] = True
 
 
-def run_impl(case: dict, root: str, tracer: Tracer) -> list:
+def run_impl(case: dict, root: str, tracer: Tracer, snap0: "Snapshot | None" = None) -> list:
     """Run one tensor history on the real ExternalTensor.  Returns per step
     {"events": [...], "res": ["ok", bytes] | ["raise", name], "audit_opens": n}."""
     import onnx_ir as ir
@@ -486,12 +530,22 @@ def run_impl(case: dict, root: str, tracer: Tracer) -> list:
     old = os.getcwd()
     os.chdir(os.path.join(root, case["cwd"]))
     out = []
+    snap = snap0 if snap0 is not None else Snapshot(root)
+    cwd_rel = case["cwd"]
     try:
         t = ir.ExternalTensor(sub(case["loc"]), case["off"], case["len"], ir.DataType.UINT8,
                               shape=ir.Shape([case["n"]]), name="t", base_dir=sub(case["base"]))
         for op in case["ops"]:
             tracer.events = []
             _AUDIT["paths"] = []
+            # the property's reference point, taken when the call is made: which directory base_dir denotes NOW
+            b_now = os.fspath(t.base_dir)
+            cb_now = None
+            if b_now:
+                cb_now = canon_dir(snap, b_now)
+                if cb_now is None:
+                    # base_dir the kernel cannot resolve: Python's non-strict resolution (see docstring, readings)
+                    cb_now = os.path.realpath(b_now)
             _AUDIT["on"] = True
             try:
                 k = op[0]
@@ -516,6 +570,18 @@ def run_impl(case: dict, root: str, tracer: Tracer) -> list:
                 elif k == "serialize":
                     mem = ed.convert_tensors_from_external([t])[0]
                     r = ["ok", bytes(serde.serialize_tensor(mem).raw_data)]
+                elif k == "world":
+                    _AUDIT["on"] = False
+                    for mut in op[1]:
+                        try:
+                            nc = apply_mutation(root, mut)
+                            if nc is not None:
+                                os.chdir(os.path.join(root, nc))
+                        except OSError:
+                            pass           # the snapshot / getcwd below record whatever really happened
+                    snap = Snapshot(root)
+                    tracer.events = []
+                    r = ["ok", b""]
                 elif k == "setbase":
                     t.base_dir = sub(op[1])
                     r = ["ok", b""]
@@ -534,7 +600,8 @@ def run_impl(case: dict, root: str, tracer: Tracer) -> list:
             # opens seen by the interpreter-wide audit hook that did not go through _core.open
             traced = [e[1] for e in tracer.events if e[0] == "O"]
             stray = [p for p in _AUDIT["paths"] if p not in traced and not p.endswith("dst.bin")]
-            out.append({"events": list(tracer.events), "res": r, "stray_opens": stray})
+            out.append({"events": list(tracer.events), "res": r, "stray_opens": stray if k != "world" else [],
+                        "snap": snap, "cwd": os.getcwd(), "base": b_now, "cb": cb_now})
             tracer.events = []
         t.release()
     finally:
@@ -553,18 +620,17 @@ def canon_dir(snap: Snapshot, path: str):
     return snap.dir_path.get((st.st_dev, st.st_ino))
 
 
-def oracle(case: dict, obs: list, snap: Snapshot, root: str) -> list:
+def oracle(case: dict, obs: list, snap_unused, root: str) -> list:
     """Property statement on the observations: bytes come only from a singly-linked regular file inside the
     resolved base; a failing check means nothing was opened; every open was preceded by a passing check."""
     bad = []
     base = case["base"].replace(W, root)
-    cwd = os.path.join(root, case["cwd"])
-    loaded_under = None      # base in force when the cached bytes were read
     for i, (op, o) in enumerate(zip(case["ops"], obs)):
+        snap, cwd = o["snap"], o["cwd"]      # the world in force at this call
         if op[0] == "setbase":
             base = op[1].replace(W, root)
             continue
-        if op[0] in ("release", "invalidate"):
+        if op[0] in ("release", "invalidate", "world"):
             continue
         ev = o["events"]
         if o["stray_opens"]:
@@ -579,18 +645,9 @@ def oracle(case: dict, obs: list, snap: Snapshot, root: str) -> list:
                 bad.append(f"step {i} {op[0]}: open() without a passing containment check before it")
         if any(c[3] != "ok" for c in checks) and opens:
             bad.append(f"step {i} {op[0]}: the check raised but a file was opened")
-        if base == "":
+        if o["base"] == "":
             continue        # no boundary defined (documented behaviour of the code)
-        old = os.getcwd()
-        os.chdir(cwd)
-        try:
-            cb = canon_dir(snap, base)
-            if cb is None:
-                # base_dir that the kernel cannot resolve (e.g. "da/nothing/.."): "the fully resolved base
-                # directory" is read as Python's non-strict resolution, the only one that exists (see docstring)
-                cb = os.path.realpath(base)
-        finally:
-            os.chdir(old)
+        cb = o["cb"]        # canonical directory base_dir denoted when this call was made
         for r in reads:
             i_d = snap.ino_id.get(r[1])
             if i_d is None:
@@ -604,7 +661,7 @@ def oracle(case: dict, obs: list, snap: Snapshot, root: str) -> list:
         if o["res"][0] == "ok" and o["res"][1] and not reads:
             # cached bytes: allowed only if they were read under the same base earlier
             pass
-        if o["res"][0] == "ok" and o["res"][1]:
+        if o["res"][0] == "ok" and o["res"][1] and reads:      # fresh bytes (cached ones: see readings)
             b = o["res"][1]
             fids = set(b)
             if len(fids) != 1:
@@ -643,10 +700,10 @@ Definition proj (e : event) : oev :=
 Definition step_eqb (a b : list oev * res (list N)) : bool :=
   list_eqb oev_eqb (fst a) (fst b) && res_eqb (list_eqb N.eqb) (snd a) (snd b).
 (* a tensor history: fs, cwd, base, loc, n, off, len, ops, observed steps *)
-Definition hcase := (node * rpath * str * str * N * option N * option N * list op * list (list oev * res (list N)))%%type.
+Definition hcase := (node * rpath * str * str * N * option N * option N * list wop * list (list oev * res (list N)))%%type.
 Definition hagree (c : hcase) : bool :=
   let '(fs, cwd, base, loc, n, off, len, ops, obs) := c in
-  match run kf fs cwd pf ops (fresh base loc n off len) with
+  match wrun kf pf ops fs cwd (fresh base loc n off len) with
   | Some l => list_eqb step_eqb (map (fun x => (map proj (snd (fst x)), snd x)) l) obs
   | None => false
   end.
@@ -683,14 +740,22 @@ def c_res_unit(x: str) -> str:
     return "(Ok tt)" if x == "ok" else f"(Raise {x})"
 
 
-def c_op(op: list, root: str) -> str:
+def c_op(op: list, root: str, o: dict | None = None, names: dict | None = None) -> str:
+    k = op[0]
+    if k == "world":
+        return f"World {names[id(o['snap'])]} {c_rpath(o['cwd'])}"
+    return "TOp " + _c_top(op, root)
+
+
+def _c_top(op: list, root: str) -> str:
     k = op[0]
     return {"numpy": "Numpy", "array": "ArrayProto", "tobytes": "ToBytes", "tofile": "ToFile",
             "serialize": "Serialize", "release": "Release", "invalidate": "Invalidate"}.get(k) or \
         f"(SetBase {s_lit(op[1].replace(W, root))})"
 
 
-def c_obs_step(o: dict, snap: Snapshot) -> str:
+def c_obs_step(o: dict, snap_unused=None) -> str:
+    snap = o["snap"]
     evs = []
     for e in o["events"]:
         if e[0] == "C":
@@ -708,12 +773,13 @@ def c_rpath(path: str) -> str:
     return clist(s_lit(c) for c in path.split("/") if c)
 
 
-def hcase_term(case, obs, snap, root, fsname) -> str:
+def hcase_term(case, obs, root, names, fs0name) -> str:
     cwd = os.path.join(root, case["cwd"]).rstrip("/")
     return "(" + ", ".join([
-        fsname, c_rpath(cwd), s_lit(case["base"].replace(W, root)), s_lit(case["loc"].replace(W, root)),
+        fs0name, c_rpath(cwd), s_lit(case["base"].replace(W, root)), s_lit(case["loc"].replace(W, root)),
         cN(case["n"]), copt(case["off"], cN), copt(case["len"], cN),
-        clist(c_op(o, root) for o in case["ops"]), clist(c_obs_step(o, snap) for o in obs)]) + ")"
+        clist("(" + c_op(op, root, o, names) + ")" for op, o in zip(case["ops"], obs)),
+        clist(c_obs_step(o) for o in obs)]) + ")"
 
 
 # =========================================================================== one world = one batch of cases
@@ -739,6 +805,11 @@ def gen_cases(rng, root: str, count: int) -> list:
     dirs, files, links, ltd = world_lists(root)
     cases = []
     for _ in range(count):
+        if rng.random() < 0.22:
+            mc = gen_mutation_case(rng, dirs, files, links)
+            if mc is not None:
+                cases.append(mc)
+                continue
         cwd, base = spell_base(rng, dirs, ltd, plain=rng.random() < 0.5)
         # where the base really is (relative to the world), for aiming locations
         brel = None
@@ -776,6 +847,49 @@ def gen_cases(rng, root: str, count: int) -> list:
                 o.append("real")
         cases.append({"cwd": cwd, "base": base, "loc": loc, "n": n, "off": off, "len": ln, "ops": ops})
     return cases
+
+
+def gen_mutation_case(rng, dirs, files, links) -> dict | None:
+    """op ; the world changes ; the same tensor object is read again."""
+    d = rng.choice(["da", "da", "", "da/sub"] + dirs)
+    below = [x for x in files if (d == "" or x.startswith(d + "/")) and "/h" not in "/" + x]
+    if not below:
+        return None
+    f = rng.choice(below)
+    loc = f if d == "" else f[len(d) + 1:]
+    depth = f.count("/")
+    kind = rng.choice(["symlink_abs", "symlink_rel", "hardlink", "swapdir", "chdir", "benign", "symlink_abs", "hardlink"])
+    cwd, base = "", (W + "/" + d if d else W)
+    if kind == "chdir" or rng.random() < 0.3:
+        cwd, base = d, rng.choice([".", "./", "../" + d.split("/")[-1] if d else "."])
+    if kind == "symlink_abs":
+        muts = [["symlink", f, W + "/outside/secret"]]
+    elif kind == "symlink_rel":
+        muts = [["symlink", f, "../" * depth + "outside/secret"]]
+    elif kind == "hardlink":
+        muts = [["hardlink", f, "outside/secret" if f != "outside/secret" else "da/f1"]]
+    elif kind == "swapdir":
+        parent = os.path.dirname(f)
+        if not parent:
+            muts = [["symlink", f, W + "/outside/secret"]]
+        else:
+            muts = [["swapdir", parent, "outside/cp"]]
+    elif kind == "chdir":
+        cwd, base, loc = "da", rng.choice([".", "./"]), "f1"
+        muts = [["chdir", rng.choice(["dz", "dz", "dab", "outside"])]]
+    else:
+        inside = [x for x in below if x != f]
+        muts = [["symlink", f, W + "/" + rng.choice(inside)]] if inside else [["chdir", cwd]]
+    first = rng.choice(OPS)
+    second = rng.choice([[["tofile"]], [["tofile", "real"]], [["release"], ["numpy"]], [["release"], ["tobytes"]],
+                         [["release"], ["array"]], [["release"], ["serialize"]], [["numpy"]], [["tobytes"]]])
+    if first == "serialize":      # releases by itself
+        second = rng.choice([[["tofile"]], [["numpy"]], [["tobytes"]], [["serialize"]]])
+    ops = [[first], ["world", muts]] + second
+    if rng.random() < 0.3:
+        ops += [["world", [["chdir", rng.choice(dirs)]]], [rng.choice(OPS)]]
+    return {"cwd": cwd, "base": base, "loc": loc, "n": rng.choice([1, 3, 4]), "off": rng.choice([None, 0, 1]),
+            "len": None, "ops": ops}
 
 
 def function_rows(rng, cases: list, root: str, plan: list) -> tuple[list, list]:
@@ -820,19 +934,37 @@ def run_world(ck, idx: int, plan: list, cases: list | None, ncases: int, tracer:
     if cases is None:
         cases = gen_cases(ck.rng, root, ncases)
     results = []
-    for c in cases:
-        obs = run_impl(c, root, tracer)
-        bad = oracle(c, obs, snap, root)
+    for j, c in enumerate(cases):
+        if any(o[0] == "world" for o in c["ops"]):
+            # the history changes the world: it gets a private copy
+            croot = os.path.join(os.path.dirname(root), "m", f"{os.path.basename(root)}_{j}")
+            shutil.rmtree(croot, ignore_errors=True)
+            materialise(plan, croot)
+            obs = run_impl(c, croot, tracer, Snapshot(croot))
+        else:
+            croot = root
+            obs = run_impl(c, root, tracer, snap)
+        for o in obs:
+            o["root"] = croot
+        bad = oracle(c, obs, None, croot)
         results.append((c, obs, bad))
-    fr, kr = function_rows(ck.rng, cases, root, plan)
+    fr, kr = function_rows(ck.rng, [c for c in cases if not any(o[0] == "world" for o in c["ops"])], root, plan)
     return root, snap, results, fr, kr
 
 
 def world_text(root, snap, results, fr, kr, idx) -> str:
     fsname = f"fs{idx}"
     t = [f"Definition {fsname} : node := {snap.term}."]
-    t.append(f"Definition hcases{idx} : list hcase := [\n  " +
-             ";\n  ".join(hcase_term(c, o, snap, root, fsname) for c, o, _ in results) + "].")
+    names = {id(snap): fsname}
+    terms = []
+    for j, (c, o, _) in enumerate(results):
+        for k, st in enumerate(o):
+            if id(st["snap"]) not in names:
+                names[id(st["snap"])] = f"fs{idx}_{j}_{k}"
+                t.append(f"Definition fs{idx}_{j}_{k} : node := {st['snap'].term}.")
+        croot = o[0]["root"] if o else root
+        terms.append(hcase_term(c, o, croot, names, names[id(o[0]["snap"])] if o else fsname))
+    t.append(f"Definition hcases{idx} : list hcase := [\n  " + ";\n  ".join(terms) + "].")
     rows = []
     for f, cwd, a, b, e in fr:
         rows.append(f"({cN(f)}, {fsname}, {c_rpath(os.path.join(root, cwd))}, {s_lit(a)}, {s_lit(b)}, {s_lit(e)})")
@@ -1096,8 +1228,8 @@ def run_history_case(item: dict, root: str, tracer: Tracer) -> tuple[list, list]
     shutil.rmtree(root, ignore_errors=True)
     materialise(item["plan"], root)
     snap = Snapshot(root)
-    obs = run_impl(item["case"], root, tracer)
-    return obs, oracle(item["case"], obs, snap, root)
+    obs = run_impl(item["case"], root, tracer, snap)
+    return obs, oracle(item["case"], obs, None, root)
 
 
 def shrink_history(item: dict, root: str, tracer: Tracer) -> dict:
@@ -1110,7 +1242,7 @@ def shrink_history(item: dict, root: str, tracer: Tracer) -> dict:
     # single ops first
     ops = cur["case"]["ops"]
     for i in range(len(ops)):
-        for cand in (ops[:i + 1], [o for o in ops[:i + 1] if o[0] == "setbase"] + [ops[i]], [ops[i]]):
+        for cand in (ops[:i + 1], [o for o in ops[:i] if o[0] in ("setbase", "world")] + [ops[i]], [ops[i]]):
             c2 = json.loads(json.dumps(cur))
             c2["case"]["ops"] = cand
             if len(cand) < len(cur["case"]["ops"]) and fails(c2):
@@ -1142,9 +1274,12 @@ def search(ck, tracer: Tracer) -> bool:
         materialise(plan, root)
         snap = Snapshot(root)
         for c in gen_cases(ck.rng, root, 40):
-            obs = run_impl(c, root, tracer)
+            if any(o[0] == "world" for o in c["ops"]):
+                obs, bad = run_history_case({"plan": plan, "case": c}, os.path.join(ck.scratch, "searchm"), tracer)
+            else:
+                obs = run_impl(c, root, tracer, snap)
+                bad = oracle(c, obs, None, root)
             ck.count()
-            bad = oracle(c, obs, snap, root)
             if bad:
                 small = shrink_history({"kind": "history", "plan": plan, "case": c}, os.path.join(ck.scratch, "shrink"), tracer)
                 _, bad2 = run_history_case(small, os.path.join(ck.scratch, "shrink"), tracer)
@@ -1212,6 +1347,7 @@ def run(ck) -> None:
 
 
 def _run(ck, tracer: Tracer) -> None:
+    os.makedirs(os.path.join(ck.scratch, "m"), exist_ok=True)    # private copies of worlds for world-changing histories
     n_worlds = 12 if not ck.thorough else 400
     per_world = 30 if not ck.thorough else 45
     oracle_fail = []          # (item, bad)
@@ -1229,6 +1365,7 @@ def _run(ck, tracer: Tracer) -> None:
         if it.get("kind") == "history":
             root, snap, results, fr, kr = run_world(ck, widx, it["plan"], [it["case"]], 0, tracer)
             batch.append((widx, root, snap, results, fr[:60], filter_krows(kr, snap)[:60]))
+            plans[widx] = it["plan"]
             for c, o, bad in results:
                 ck.count()
                 if bad:
@@ -1340,6 +1477,9 @@ def _run(ck, tracer: Tracer) -> None:
 def _account(ck, c: dict, obs: list) -> None:
     for op, o in zip(c["ops"], obs):
         ck.hist("ops", op[0])
+        if op[0] == "world":
+            for m in op[1]:
+                ck.hist("world_mutations", m[0])
         r = o["res"]
         ck.hist("outcomes", "bytes" if (r[0] == "ok" and r[1]) else ("ok-empty" if r[0] == "ok" else r[1]))
         ev = o["events"]
